@@ -96,7 +96,8 @@ def inline_into(raw, raws, should_inline, stack=(), depth=0, log=None):
     """returns a copy of `raw` in which every direct call of a function selected by should_inline(path) is expanded"""
     out = copy.deepcopy(raw)
     i = 0
-    while i < len(out['blocks']):
+    n0 = len(out['blocks'])
+    while i < n0:      # only the blocks of `raw` itself: what gets spliced in was expanded already (and may be recursive)
         b = out['blocks'][i]
         t = b['term']
         p = callee_path(t)
